@@ -37,12 +37,12 @@ pub fn all_flag_cfgs(offsets: &[u16], notify_ops: bool, legacy_too: bool) -> Vec
     let mut v = vec![];
     for &off in offsets {
         for bits in 0..8u8 {
-            let c = QCfg { indirect: bits & 1 != 0, event_idx: bits & 2 != 0, ap: bits & 4 != 0, legacy: false, start_off: off, notify_ops, abstract_idx: false, trace: false, reduced: false };
+            let c = QCfg { indirect: bits & 1 != 0, event_idx: bits & 2 != 0, ap: bits & 4 != 0, legacy: false, start_off: off, notify_ops, abstract_idx: false, trace: false, reduced: false, preroll: 0, wait_pop: false };
             v.push(c);
         }
         if legacy_too {
-            v.push(QCfg { indirect: false, event_idx: false, ap: false, legacy: true, start_off: off, notify_ops, abstract_idx: false, trace: false, reduced: false });
-            v.push(QCfg { indirect: true, event_idx: true, ap: false, legacy: true, start_off: off, notify_ops, abstract_idx: false, trace: false, reduced: false });
+            v.push(QCfg { indirect: false, event_idx: false, ap: false, legacy: true, start_off: off, notify_ops, abstract_idx: false, trace: false, reduced: false, preroll: 0, wait_pop: false });
+            v.push(QCfg { indirect: true, event_idx: true, ap: false, legacy: true, start_off: off, notify_ops, abstract_idx: false, trace: false, reduced: false, preroll: 0, wait_pop: false });
         }
     }
     v
@@ -124,6 +124,13 @@ pub fn tier_plans(tier: Tier, notify_ops: bool) -> Vec<Plan> {
             Plan { n: 4, depth: if notify_ops { 4 } else { 5 }, cfgs: all_flag_cfgs(&[0, 65534], notify_ops, false) },
             // Deeper histories over a reduced set of shapes (indirect and direct, no access_platform).
             Plan { n: 4, depth: if notify_ops { 5 } else { 7 }, cfgs: all_flag_cfgs(&[0], notify_ops, false).into_iter().filter(|c| !c.ap).map(|mut c| { c.reduced = true; c }).collect() },
+            // From non-initial states: the queue has been filled and drained once (free list in
+            // descending order, resp. drained in reverse completion order).
+            Plan { n: 4, depth: 4, cfgs: all_flag_cfgs(&[0], notify_ops, false).into_iter().filter(|c| !c.ap).flat_map(|c| [1u8, 2].map(|p| { let mut c = c; c.preroll = p; c })).collect() },
+            Plan { n: 8, depth: 3, cfgs: all_flag_cfgs(&[65530], notify_ops, false).into_iter().filter(|c| !c.ap).map(|mut c| { c.preroll = 1; c.reduced = true; c }).collect() },
+            // With the blocking helper in the alphabet (also while earlier completions wait).
+            Plan { n: 4, depth: 5, cfgs: all_flag_cfgs(&[0], false, false).into_iter().filter(|c| !c.ap).map(|mut c| { c.reduced = true; c.wait_pop = true; c }).collect() },
+            Plan { n: 2, depth: 6, cfgs: all_flag_cfgs(&[65533], false, true).into_iter().filter(|c| !c.ap).map(|mut c| { c.wait_pop = true; c }).collect() },
         ],
         Tier::Thorough => vec![
             Plan { n: 1, depth: 16, cfgs: all_flag_cfgs(&[0, 65535, 65534, 65532, 65530, 65526], notify_ops, true) },
@@ -134,6 +141,12 @@ pub fn tier_plans(tier: Tier, notify_ops: bool) -> Vec<Plan> {
             Plan { n: 8, depth: 7, cfgs: all_flag_cfgs(&[0], notify_ops, false).into_iter().filter(|c| !c.ap).map(|mut c| { c.reduced = true; c }).collect() },
             Plan { n: 16, depth: 4, cfgs: all_flag_cfgs(&[0, 65534], notify_ops, false).into_iter().filter(|c| !c.ap).collect() },
             Plan { n: 16, depth: 6, cfgs: all_flag_cfgs(&[0], notify_ops, false).into_iter().filter(|c| !c.ap).map(|mut c| { c.reduced = true; c }).collect() },
+            Plan { n: 4, depth: 6, cfgs: all_flag_cfgs(&[0, 65533], notify_ops, true).into_iter().filter(|c| !c.ap).flat_map(|c| [1u8, 2].map(|p| { let mut c = c; c.preroll = p; c })).collect() },
+            Plan { n: 8, depth: 5, cfgs: all_flag_cfgs(&[0, 65530], notify_ops, false).into_iter().filter(|c| !c.ap).flat_map(|c| [1u8, 2].map(|p| { let mut c = c; c.preroll = p; c.reduced = true; c })).collect() },
+            Plan { n: 16, depth: 4, cfgs: all_flag_cfgs(&[65520], notify_ops, false).into_iter().filter(|c| !c.ap).map(|mut c| { c.preroll = 1; c.reduced = true; c }).collect() },
+            Plan { n: 4, depth: 7, cfgs: all_flag_cfgs(&[0, 65533], false, true).into_iter().filter(|c| !c.ap).map(|mut c| { c.reduced = true; c.wait_pop = true; c }).collect() },
+            Plan { n: 2, depth: 9, cfgs: all_flag_cfgs(&[0, 65533], false, true).into_iter().filter(|c| !c.ap).map(|mut c| { c.wait_pop = true; c }).collect() },
+            Plan { n: 8, depth: 5, cfgs: all_flag_cfgs(&[0], false, false).into_iter().filter(|c| !c.ap).map(|mut c| { c.reduced = true; c.wait_pop = true; c }).collect() },
         ],
     }
 }
@@ -161,7 +174,7 @@ pub fn run_linear(check: &mut Check, tier: Tier) {
             }
         }
     }
-    let base = QCfg { indirect: false, event_idx: false, ap: false, legacy: false, start_off: 0, notify_ops: false, abstract_idx: false, trace: false, reduced: false };
+    let base = QCfg { indirect: false, event_idx: false, ap: false, legacy: false, start_off: 0, notify_ops: false, abstract_idx: false, trace: false, reduced: false, preroll: 0, wait_pop: false };
     let ind = QCfg { indirect: true, event_idx: true, ..base };
     let long = if tier == Tier::Quick { 24_000 } else { 120_000 };
     let big = if tier == Tier::Quick { 150 } else { 1500 };
